@@ -64,17 +64,21 @@ RepCls(k) ==
     [] k = "v_deep" -> {"d200"}
     [] k = "o_irv" -> {"INSTANCE", "CLASS", "VALUE", "VALUE.OBJECT/c"}
     [] k = "o_struct" -> {"missing", "dup"}
+    [] k = "o_pv" -> {"none"}
     [] k = "p_eos" -> {"missing_both", "bogus"}
     [] k = "p_ctx" -> {"missing"}
     [] k = "p_misc" -> {"empty"}
     [] k = "m_misc" -> {"retval_notype", "two_retvals"}
     [] OTHER -> {}
-RepTys == {"", "uint8", "real32"}
+RepTys == {"", "uint8", "real32", "IRETURNVALUE", "RETURNVALUE", "ERROR"}
 RepSites == {"", "prop", "proparr", "key", "qdval", "qdarr", "retval",
-             "outparamarr", "obj", "cls", "path", "ref", "paramarr"}
+             "outparamarr", "obj", "cls", "path", "ref", "paramarr",
+             "only"}
 IsRep(d) ==
   IF PairMode = "wide"
-  THEN d.k # "v_num" \/ (d.ty \in RepTys /\ d.cls \in RepCls("v_num"))
+  THEN CASE d.k = "v_num" -> d.ty \in RepTys /\ d.cls \in RepCls("v_num")
+         [] d.k = "o_pv" -> d.cls \in RepCls("o_pv")
+         [] OTHER -> TRUE
   ELSE d.cls \in RepCls(d.k) /\ d.ty \in RepTys /\ d.site \in RepSites
 
 Pairs(shape) ==
